@@ -84,6 +84,8 @@ type cacheWorld struct {
 	// serial numbers of recorded episodes (atomic; the race-hunting drivers use
 	// per-goroutine ranges instead so that the harness adds no synchronisation)
 	serial int64
+	// gated episodes choose the expiry class of the next recorded Store themselves
+	forceClass string
 }
 
 func newWorld(ids []string) *cacheWorld {
@@ -352,6 +354,9 @@ func (w *cacheWorld) recorded(h *recorder, g int, op string, r *rand.Rand, known
 	switch op {
 	case "Store":
 		cl := []string{"live", "live", "dead", "never"}[r.Intn(4)]
+		if w.forceClass != "" {
+			cl = w.forceClass
+		}
 		e := newEntry(id, int(atomic.AddInt64(&w.serial, 1)), cl)
 		o := objOf(e)
 		omu.Lock()
